@@ -82,6 +82,21 @@ CHECKS.update({
             "TLC-enumerated damage cases (WalrusDamage) + process-outcome oracle + TLC trace validation (no foreign payload)", "7 C11"),
 })
 
+CHECKS.update({
+    "C10": ("fault_enumeration", "SyncEach workloads are run with the I/O hook recording every durable mutation with its bytes; for every trace prefix ending at an operation boundary (thorough: every prefix) and for admissible loss sets "
+            "(subsets of unsynced directory operations and file writes) the directory is reconstructed exactly as the statement's power-loss model leaves it and opened by a fresh process; TLC validates acknowledged events, Crash(inflight) "
+            "and the post-recovery reads against WalrusAPI (acknowledged appends present; StrictlyAtOnce consumption not forgotten).",
+            "I/O-trace power-loss reconstruction + TLC trace validation against WalrusAPI.Crash", "7 C10"),
+    "C20": ("model_checking", "Metadata (Restore(Snapshot(s)) = s in every reachable state of the bounded command space) and RaftSM (2 nodes, <=4 (5) entries, build/install/damaged-install at every point: every node's application state "
+            "equals the state determined by its applied prefix) checked by TLC; ~13.9k (thorough ~122k) executions on the real Metadata::snapshot/restore and the real storage.rs adapter (apply/build_snapshot/install_snapshot) with the real "
+            "Metadata or KvStateMachine, full state compared after every operation; defective-adapter models kept as vacuity mutants.",
+            "explicit TLA+ (Metadata, RaftSM; TLC) + spec->impl case replay + state comparison through the shim world", "7 C20"),
+    "C21": ("model_checking", "All histories of <=4 (thorough 5) store operations with <=2 (3) reopens checked by TLC on the design layer of WalLogStore/WriteAheadLog/peer-address records against the contract LogStore (the code's own design, "
+            "consuming replay with a persisted cursor, is rejected with a 3-operation counterexample = known finding OCT-C21-CONSUMED-REPLAY); ~900 (thorough ~10.7k) TLC-generated and seeded random histories incl. clean/killed, same/new-process "
+            "and mid-call-kill reopens executed on the real store, every trace validated by TLC against the contract; histories outside the finding's trigger must all conform.",
+            "explicit TLA+ contract + design layer (TLC); spec->impl history replay; impl->spec ndjson trace validation; known-finding matcher + avoidance guard", "7 C21"),
+})
+
 DIST_NOTE = ("Shim world: the distributed-walrus/octopii files are compiled unmodified via #[path] against local shim crates (tokio: deterministic executor, bincode: 1.3 layout, "
              "octopii/openraft: traits and data types only); behaviour that depends on the real crates is outside what is explored.")
 
